@@ -781,7 +781,8 @@ class DocutilsRenderer(RendererProtocol):
         self.document.note_implicit_target(node, node)
         node["names"] = explicit_names + node["names"]
 
-        if level > self.md_config.heading_anchors:
+        # note, the validator also admits `None` for no anchors
+        if level > (self.md_config.heading_anchors or 0):
             return
 
         # Create an implicit reference slug.
